@@ -18,46 +18,46 @@ open Influx.Meta
 open Influx.Generated.Meta (MinNanoTime MaxNanoTime Deleted)
 
 /-- timestamps a point can carry (`models.CheckTime`) -/
-def inRange (t : Time) : Bool := decide (MinNanoTime ≤ t) && decide (t ≤ MaxNanoTime)
+def inRange (t : Int) : Bool := decide (MinNanoTime ≤ t) && decide (t ≤ MaxNanoTime)
 
 /-- "older than now minus the retention period" for one timestamp -/
-def tooOld (cutoff : Option Time) (t : Time) : Bool :=
+def tooOld (cutoff : Option Int) (t : Int) : Bool :=
   match cutoff with
   | some a => decide (t < a)
   | none => false
 
 /-- a group's entire time range `[start, end)` is older than the cutoff -/
-def rangeOlder (g : ShardGroupInfo) (a : Time) : Bool :=
+def rangeOlder (g : ShardGroupInfo) (a : Int) : Bool :=
   decide (g.EndTime ≤ a) || decide (g.EndTime ≤ g.StartTime)
 
 /-- clause 1 on one `MapShards` call: rejected exactly when too old; dropped count reported -/
-def writeOK (cutoff : Option Time) (ts : List Time) (m : ShardMapping) : Bool :=
+def writeOK (cutoff : Option Int) (ts : List Int) (m : ShardMapping) : Bool :=
   m.placements.length == ts.length &&
   (ts.zip m.placements).all (fun (t, p) => (p == Placement.dropped) == tooOld cutoff t) &&
   m.retentionDropped == (ts.filter (tooOld cutoff)).length
 
 /-- clause 2 on `ExpiredShardGroups(t)` with retention period `D`: every group selected for
     deletion lies entirely before `t − D`; with no retention period nothing is selected -/
-def expiredOK (D : Dur) (t : Time) (ids : List Nat) (gs : List ShardGroupInfo) : Bool :=
+def expiredOK (D : Int) (t : Int) (ids : List Nat) (gs : List ShardGroupInfo) : Bool :=
   ids.all fun id => D != 0 && gs.any fun g => g.ID == id && rangeOlder g (t - D)
 
 /-- the cutoff of policy `(db, rp)` in a `dc` operation (last entry wins) -/
-def cutoffOf (cs : List (String × String × Time)) (db rp : String) : Option Time :=
+def cutoffOf (cs : List (String × String × Int)) (db rp : String) : Option Int :=
   (cs.reverse.find? fun (d, r, _) => d == db && r == rp).map (·.2.2)
 
 /-- the group is already deleted, or its whole range is older than its policy's cutoff -/
-def removable (cs : List (String × String × Time)) (db rp : String) (g : ShardGroupInfo) : Bool :=
+def removable (cs : List (String × String × Int)) (db rp : String) (g : ShardGroupInfo) : Bool :=
   Deleted g || match cutoffOf cs db rp with
     | some a => rangeOlder g a
     | none => false
 
 /-- the shard belongs to a removable group of the metadata the check started from -/
-def shardRemovable (cs : List (String × String × Time)) (pre : List (String × String × List ShardGroupInfo))
+def shardRemovable (cs : List (String × String × Int)) (pre : List (String × String × List ShardGroupInfo))
     (id : Nat) : Bool :=
   pre.any fun (db, rp, gs) => gs.any fun g => g.Shards.any (·.ID == id) && removable cs db rp g
 
 /-- clause 2 on one `DeletionCheck`: judged per call the service made -/
-def evOK (cs : List (String × String × Time)) (pre : List (String × String × List ShardGroupInfo))
+def evOK (cs : List (String × String × Int)) (pre : List (String × String × List ShardGroupInfo))
     (loc : List Nat) : Ev → Bool
   | .dsg db rp id ok =>
     -- a shard group deleted by retention enforcement was entirely older than the cutoff
@@ -71,7 +71,7 @@ def evOK (cs : List (String × String × Time)) (pre : List (String × String ×
   | .dropRef id _ _ => shardRemovable cs pre id
   | .prune => true
 
-def deletionOK (cs : List (String × String × Time)) (log : List Ev)
+def deletionOK (cs : List (String × String × Int)) (log : List Ev)
     (pre : List (String × String × List ShardGroupInfo)) (loc : List Nat) : Bool :=
   log.all (evOK cs pre loc)
 
